@@ -30,6 +30,8 @@ THEOREMS = [
     "Pydjinni.Front.mem_derivingDiags_iff",
     "Pydjinni.Front.mem_staticDiags_iff",
     "Pydjinni.Front.mem_targetDiags_iff",
+    "Pydjinni.Front.refs_walkT_complete",
+    "Pydjinni.Front.refs_walkF",
 ]
 LEVEL = "proof"
 
